@@ -359,7 +359,7 @@ for _mode in ('none', 'line', 'block', 'all'):
                                   tier='quick' if _q else 'thorough', budget=600, out='bound on the element line; integer form of `comments`'))
 CELLS.append(Cell('K2.get_trivia_params', k2_trivia_params, 'K', FNT[2:3],
                   '10 leading x 12 trailing option forms, the numbers in "+N"/"-N" symbolic 0..99, neg flag, scalar / 1-tuple / 2-tuple / empty tuple', budget=900))
-_QC = ('list4c', 'ifbody3', 'modbody', 'decos', 'handlers', 'cases', 'fromimp3', 'funcbody', 'bscomment', 'orelse2')
+_QC = ('list4c', 'ifbody3', 'modbody', 'decos', 'handlers', 'cases', 'fromimp3', 'funcbody', 'bscomment', 'orelse2', 'list_hash')
 for _c in pc.CARRIERS:
     if '#' not in _c.src:
         continue
